@@ -47,6 +47,8 @@ func c05RunPairs(r *Run, rng *Rng) {
 		{"matrixtranspose", true, []int{1}, false},
 		{"vectoradd", false, []int{1, 2}, false},
 		{"fir", true, []int{1}, true},
+		// functional results with the parallel engine: a kernel that uses LDS on many compute units
+		{"matrixtranspose", false, []int{1}, true},
 	}
 	if r.Tier == "thorough" {
 		for _, b := range []string{"kmeans", "bitonicsort", "simpleconvolution", "floydwarshall", "atax", "aes", "fastwalshtransform"} {
@@ -67,6 +69,9 @@ func c05RunPairs(r *Run, rng *Rng) {
 		}
 		s := WorkloadSpec{Bench: w.bench, Params: DefaultParams(w.bench), Arch: "gcn3", Timing: w.timing, GPUType: "r9nano",
 			GPUs: w.gpus, Parallel: w.par, Seed: int64(r.Seed)}
+		if w.bench == "matrixtranspose" && w.par && !w.timing {
+			s.Params = map[string]int{"width": 256} // 16 work-groups: several compute units emulate at once
+		}
 		specs = append(specs, s)
 	}
 	old := os.Getenv("GOMAXPROCS")
@@ -78,6 +83,33 @@ func c05RunPairs(r *Run, rng *Rng) {
 		os.Unsetenv("GOMAXPROCS")
 	} else {
 		os.Setenv("GOMAXPROCS", old)
+	}
+	// the same simulation as the first one of a process and after another simulation in the process
+	{
+		var ws []WorkloadSpec
+		for _, cfg := range []struct {
+			bench, arch, gpu string
+			timing           bool
+		}{{"vectoradd", "cdna3", "mi300a", true}, {"fir", "gcn3", "r9nano", true}, {"matrixtranspose", "gcn3", "", false}} {
+			if !known[cfg.bench] {
+				continue
+			}
+			for _, warm := range []int{0, 1} {
+				ws = append(ws, WorkloadSpec{Bench: cfg.bench, Params: DefaultParams(cfg.bench), Arch: cfg.arch, Timing: cfg.timing,
+					GPUType: cfg.gpu, GPUs: []int{1}, Seed: int64(r.Seed), Knobs: map[string]int{"warm": warm}})
+			}
+		}
+		res := RunWorkloads(ws, 8, 300*time.Second)
+		for j := 0; j+1 < len(ws); j += 2 {
+			r.Checked("warm-pair")
+			r.Count("warm." + ws[j].Bench)
+			cold, warm := c05Obs(res[j], true), c05Obs(res[j+1], true)
+			strip := func(o string) string { return strings.ReplaceAll(strings.ReplaceAll(o, " warm=1", ""), " warm_fault=1", "") }
+			if strip(cold) != strip(warm) {
+				r.Failf("C05.rerun-differs."+ws[j].Bench, ws[j].String()+" first in its process vs after another simulation in the same process",
+					"GOMAXPROCS=0: %s  |  GOMAXPROCS=0: %s", strip(cold), strip(warm))
+			}
+		}
 	}
 	for j, s := range specs {
 		withTime := !s.Parallel
